@@ -156,6 +156,8 @@ RW = [
       note='node type whose child comes before its own slot: the pattern slot must be paired with the node slot, not with a slot of the child'),
     T('MM3', 'Lb', 3, [add(app(var(0), var(1))), mmatch(('?q', app('?b', '?c')), ('?r', app('?a', '?b')), ('?a', var(2)), ('?b', var(2)))], late={2: 1},
       note='multi-pattern whose equations force two siblings to be the same variable term although the only node has two different ones'),
+    T('MM4', 'Lb', 3, [add(u(k(0, 1))), add(at(0, k(0, 1))), add(at(1, k(0, 1))), mmatch(('?o', u('?a')), ('?p', at(2, '?a')))], late={2: 3}, distinct=[[0, 1]],
+      note='multi-pattern whose join variable is bound to a class with two slots and no symmetry: the two bindings must be identified argument by argument, not as slot sets'),
     T('R1', 'Lf', 6, [add(f(0, 1)), add(f(2, 3)), union(f(0, 1), f(2, 3)), rewrite(rule('f-to-g', f(4, 5), g(5, 4))), probe(g(1, 0)), probe(g(3, 2)), rewrite(rule('f-to-g', f(4, 5), g(5, 4)))], late={4: 3, 5: 3},
       note='(f $x $y) => (g $y $x) on every final state of T1; second application must report no change'),
     T('R2', 'Lb', 3, [add(app(var(0), var(1))), add(app(var(1), var(1))), rewrite(rule('comm', app('?a', '?b'), app('?b', '?a')), rule('idem', app('?a', '?a'), '?a')), probe(app(var(1), var(0))), rewrite(rule('comm', app('?a', '?b'), app('?b', '?a')), rule('idem', app('?a', '?a'), '?a'))],
